@@ -18,6 +18,9 @@ structure Binding (P : Proto) where
   bits : Fld → Nat
   mkCall : String → List Int → P.L → Option P.L
   retOf : P.L → Option (List Int)
+  /-- fields holding plain (non-atomic) data: operations on them leave no event in the trace and are
+      executed together with the preceding visible operation of the same thread -/
+  silentFld : Fld → Bool := fun _ => false
 
 /-- signed normalisation modulo 2^bits -/
 def norm (bits : Nat) (x : Int) : Int :=
@@ -28,16 +31,26 @@ def norm (bits : Nat) (x : Int) : Int :=
 def bitsToList (mask : Int) : List Nat :=
   (List.range 63).filter fun i => (mask.toNat >>> i) % 2 = 1
 
-/-- run the silent (thread-local) steps that follow a visible operation -/
-def runSilent {P : Proto} (s : State P) (t : TId) : Nat → State P
+def isSilentOp {P : Proto} (B : Binding P) : AOp → Bool
+  | .silent => true
+  | .load f => B.silentFld f
+  | .store f _ => B.silentFld f
+  | .xchg f _ => B.silentFld f
+  | _ => false
+
+/-- run the silent (thread-local / plain-data) steps that follow a visible operation -/
+def runSilent {P : Proto} (B : Binding P) (s : State P) (t : TId) : Nat → State P
   | 0 => s
   | fuel + 1 =>
     if s.parked t ≠ none then s else
     match P.op (s.loc t) with
-    | some .silent => match exec s (.step t) with
-      | some s' => runSilent s' t fuel
-      | none => s
-    | _ => s
+    | some o =>
+      if isSilentOp B o then
+        match exec s (.step t) with
+        | some s' => runSilent B s' t fuel
+        | none => s
+      else s
+    | none => s
 
 def showOp : Option AOp → String
   | none => "none"
@@ -61,7 +74,7 @@ def acceptLine {P : Proto} (B : Binding P) (s : State P) (toks : List String) :
             | none => .error s!"unknown call {name}"
             | some l =>
               match exec s (.call t l) with
-              | some s' => .ok (runSilent s' t 64)
+              | some s' => .ok (runSilent B s' t 64)
               | none => .error s!"call {name} not enabled for thread {t} (pending {showOp (P.op (s.loc t))})"
         | [] => .error "bad call"
       else if kind = "ret" then
@@ -84,7 +97,7 @@ def acceptLine {P : Proto} (B : Binding P) (s : State P) (toks : List String) :
             if kind = "fence" then
               match P.op (s.loc t) with
               | some .fence => match exec s (.step t) with
-                | some s' => .ok (runSilent s' t 64)
+                | some s' => .ok (runSilent B s' t 64)
                 | none => .error "fence step failed"
               | o => .error s!"impl fence, model pending {showOp o}"
             else
@@ -96,15 +109,15 @@ def acceptLine {P : Proto} (B : Binding P) (s : State P) (toks : List String) :
               if kind = "futex_wait_ret" then
                 if result = 110 then
                   match exec s (.timeout t) with
-                  | some s' => .ok (runSilent s' t 64)
+                  | some s' => .ok (runSilent B s' t 64)
                   | none => .error s!"timeout of thread {t} not enabled in model"
                 else if result = 11 then
                   if s.parked t = none then .ok s else .error "EAGAIN but model parked the thread"
                 else
                   match s.parked t with
-                  | none => .ok (runSilent s t 64)
+                  | none => .ok (runSilent B s t 64)
                   | some _ => match exec s (.spurious t) with
-                    | some s' => .ok (runSilent s' t 64)
+                    | some s' => .ok (runSilent B s' t 64)
                     | none => .error "spurious wake failed"
               else
               match P.op (s.loc t) with
@@ -112,7 +125,7 @@ def acceptLine {P : Proto} (B : Binding P) (s : State P) (toks : List String) :
               | some o =>
                 let stepIt : Except String (State P) :=
                   match exec s (.step t) with
-                  | some s' => .ok (runSilent s' t 64)
+                  | some s' => .ok (runSilent B s' t 64)
                   | none => .error s!"model step not enabled for {reprStr o}"
                 let bad (why : String) : Except String (State P) :=
                   .error s!"{why}: impl {kind} {fieldS} operand={operand} result={result} aux={aux}; model pending {reprStr o} mem={s.mem f}"
@@ -150,7 +163,7 @@ def acceptLine {P : Proto} (B : Binding P) (s : State P) (toks : List String) :
                 | "futex_wake", .fwake g n =>
                   if g = f ∧ operand = n then
                     match exec s (.wake t (bitsToList aux)) with
-                    | some s' => .ok (runSilent s' t 64)
+                    | some s' => .ok (runSilent B s' t 64)
                     | none => bad s!"futex_wake woken set {bitsToList aux} not allowed (parked {parkedOn s f})"
                   else bad "futex_wake"
                 | _, _ => bad "operation kind"
